@@ -9,6 +9,6 @@ git apply "$D/patch.diff" || { echo "PATCH DOES NOT APPLY"; exit 9; }
 trap 'git -C /repo checkout -- . ' EXIT
 T=$(mktemp -d)
 ( cd /repo && BCL_DATA_DIR=$T /venv/bin/python "$D/demo.py" >/tmp/trymut_demo.log 2>&1 ); echo "demo exit on mutated tree: $? (expect 1)"
-cd /verif && ./vt check $P "$@" 2>&1 | grep -E "^(VIOLATION|HARNESS|INCONCL|C[0-9]+ tier|  obligation)" | cut -c1-400
+cd /verif && VT_EVIDENCE_DIR=/tmp/trymut_evidence ./vt check $P "$@" 2>&1 | grep -E "^(VIOLATION|HARNESS|INCONCL|C[0-9]+ tier|  obligation)" | cut -c1-400
 echo "check exit: ${PIPESTATUS[0]}"
 rm -rf $T
